@@ -30,7 +30,7 @@ Step ==
   /\ \/ \E v \in Slots, p \in {"1", "x"} : Do([op |-> "setscalar", v |-> v, type |-> "String", payload |-> p], SetScalar(v, "String", p))
      \/ \E v \in Slots : Do([op |-> "fromlist", v |-> v, list |-> "L1", how |-> ListHow(v, n)], FromList(v, "L1"))
      \/ \E v \in Slots, i \in 0 .. 2, e \in Elems : IsArr(v) /\ Do([op |-> "setbyindex", v |-> v, i |-> i, e |-> e], SetByIndex(v, i, e))
-     \/ \E v \in Slots, k \in {0, 2} : IsArr(v) /\ Do([op |-> "setlength", v |-> v, n |-> k], SetLength(v, k))
+     \/ \E v \in Slots, k \in {0, 2} : IsArr(v) /\ k >= Len(vs[v][2]) /\ Do([op |-> "setlength", v |-> v, n |-> k], SetLength(v, k))
      \/ \E v, w \in Slots : v # w /\ Do([op |-> "copy", w |-> w, v |-> v, how |-> CopyHow(w, v, n)], CopyTo(w, v))
      \/ \E v \in Slots : Do([op |-> "clear", v |-> v], ClearV(v))
      \/ \E v \in Slots, i \in 0 .. 2 : IsArr(v) /\ i < Len(vs[v][2]) /\ vs[v][2][i + 1] \in pads /\ Do([op |-> "mutelem", v |-> v, i |-> i], MutElem(v, i))
